@@ -793,7 +793,12 @@ def gen_ops(rng, n_ops):
         elif r < 0.78:
             p, names = pick_path(i)
             sel = rng.choice(['self', 'meta'] + (['pre'] if p == 'main' or p[0] == 'c' else ['diff']))
-            ops.append(['opt_put', i, p, sel, rng.choice(['encoding', 'custom', 'indent']), rng.choice([{'s': 'utf-8'}, {'i': 3}, {'s': 'x'}])])
+            # raw writes into an options dict, with values of the option's declared type (ill-typed raw values are
+            # outside what the object model documents and outside the model of generate_stats)
+            k = rng.choice(['encoding', 'custom', 'indent'])
+            v = {'encoding': rng.choice([{'s': 'utf-8'}, {'s': 'x'}, {'s': 'latin-1'}]), 'custom': rng.choice([{'s': 'x'}, {'i': 3}]),
+                 'indent': rng.choice([{'i': 3}, {'i': 0}])}[k]
+            ops.append(['opt_put', i, p, sel, k, v])
         elif r < 0.86:
             ops.append(['to_bytes', i])
         elif r < 0.96:
